@@ -52,7 +52,8 @@ def gen_case(r):
             Q = np.tril(np.ones((p, p)))
         else:
             Q = np.ones((1, p))
-        y = np.array([r.randint(-5, 30) for _ in range(Q.shape[0])], dtype=float)
+        # noisy answers are not integers: quarter-valued (exact in binary and in the rational model)
+        y = np.array([r.randint(-5, 30) + r.choice([0.0, 0.25, 0.5, 0.75, 0.0]) for _ in range(Q.shape[0])], dtype=float)
         noise = r.choice([0.1, 0.5, 1.0, 3.5])
         meas.append({'Q': Q, 'y': y, 'noise': noise, 'proj': proj, 'qkind': kind})
     table = {x: r.randint(0, 6) for x in itertools.product(*[range(s) for _, s in dom])}
@@ -67,9 +68,16 @@ def spell(r, m, variant):
         Qs = None if m['qkind'] == 'none' else Q
         ps = tuple(proj)
     else:
-        k = r.choice(['dense', 'sparse', 'op', 'csc', 'coo', 'dia'] + (['none'] if m['qkind'] in ('identity', 'none') else []))
-        Qs = {'dense': Q, 'sparse': sparse.csr_matrix(Q), 'op': aslinearoperator(sparse.csr_matrix(Q)), 'none': None,
-              'csc': sparse.csc_matrix(Q), 'coo': sparse.coo_matrix(Q), 'dia': sparse.dia_matrix(Q)}[k]
+        # element types: every generated query has integer entries, so an integer / narrow-float / boolean array is the same query
+        is01 = bool(np.isin(Q, (0.0, 1.0)).all())
+        k = r.choice(['dense', 'sparse', 'op', 'csc', 'coo', 'dia', 'dense-int', 'sparse-int32', 'dense-float32', 'op-int']
+                     + (['none'] if m['qkind'] in ('identity', 'none') else []) + (['dense-bool', 'sparse-bool'] if is01 else []))
+        mk = {'dense': lambda: Q, 'sparse': lambda: sparse.csr_matrix(Q), 'op': lambda: aslinearoperator(sparse.csr_matrix(Q)), 'none': lambda: None,
+              'csc': lambda: sparse.csc_matrix(Q), 'coo': lambda: sparse.coo_matrix(Q), 'dia': lambda: sparse.dia_matrix(Q),
+              'dense-int': lambda: Q.astype(int), 'sparse-int32': lambda: sparse.csr_matrix(Q.astype(np.int32)),
+              'dense-float32': lambda: Q.astype(np.float32), 'op-int': lambda: aslinearoperator(sparse.csr_matrix(Q.astype(np.int64))),
+              'dense-bool': lambda: Q.astype(bool), 'sparse-bool': lambda: sparse.csr_matrix(Q.astype(bool))}
+        Qs = mk[k]()
         SPELLINGS[k] = SPELLINGS.get(k, 0) + 1
         ps = r.choice([tuple(proj), list(proj)] + ([proj[0]] if len(proj) == 1 else []))
     return (Qs, m['y'], m['noise'], ps)
@@ -161,12 +169,14 @@ def run(res, drv, tier, seed):
             x = marg_of_table(dom, table, m['proj'])
             c = 1 / Fr(m['noise'])
             for row, yi in zip(m['Q'], m['y']):
-                d_ = c * (sum(Fr(int(q)) * xv for q, xv in zip(row, x)) - Fr(int(yi)))
+                d_ = c * (sum(Fr(int(q)) * xv for q, xv in zip(row, x)) - Fr(float(yi)))
                 spec_loss += d_ * d_ / 2
         shared = len(set(tuple(sorted(m['proj'])) for m in meas)) < len(meas) or any(m['proj'] != [a for a, _ in dom if a in m['proj']] for m in meas)
         res.case(canon, shared, sample={'dom': dom, 'projections': [m['proj'] for m in meas], 'noise': [m['noise'] for m in meas]} if shared else None)
         res.count('cliques in model: %d' % min(len(eng.model.cliques), 4))
         bad, key = None, None
+        # a query stored in single precision has its eigenvalue computed in single precision (rounding, relative 6e-8 observed)
+        tol1 = 1e-5 if any(getattr(q[0], 'dtype', None) == np.float32 for q in m1) else 1e-9
         if not close(loss, float(spec_loss), 1e-9, 1e-9):
             bad, key = f'loss {loss} != sum over measurements (each once) {float(spec_loss)}', 'loss:value'
         elif not close(gh, (lp - lm) / 2, 1e-8, 1e-7):
@@ -179,13 +189,13 @@ def run(res, drv, tier, seed):
             bad, key = f'_lipschitz raises TypeError ({lip_err}) for a measurement over a 1-cell marginal', 'lipschitz:one-cell'
         elif lip < lam * (1 - 1e-9) - 1e-9:
             bad, key = f'smoothness constant {lip} is below the largest Hessian eigenvalue {lam}', 'lipschitz:below-hessian'
-        elif lip1 < lam * (1 - 1e-9) - 1e-9:
+        elif lip1 < lam * (1 - tol1) - 1e-9:
             bad, key = f'smoothness constant {lip1} for an equivalent spelling of the measurements (dense / csr / csc / coo / dia / operator) is below the largest Hessian eigenvalue {lam}', 'lipschitz:below-hessian'
         rp = {'request': canon, 'observed': {'loss': loss, 'lipschitz': lip, 'lambda_max': lam, 'groups': {str(k): v for k, v in groups.items()}}}
         rows.append((canon, bad, key, rp, eng, mu, meas, loss, grad, lip))
         eigs = [float(np.linalg.eigvalsh(m['Q'].T @ m['Q']).max()) for m in meas]
         reqs.append({'op': 'loss', 'dom': dom, 'cliques': [list(c) for c in eng.model.cliques],
-                     'meas': [{'Q': [[enc_q(int(v)) for v in row] for row in m['Q']], 'y': [enc_q(int(v)) for v in m['y']],
+                     'meas': [{'Q': [[enc_q(int(v)) for v in row] for row in m['Q']], 'y': [enc_q(Fr(float(v))) for v in m['y']],
                                'noise': enc_q(Fr(m['noise']).limit_denominator(1000)), 'proj': m['proj']} for m in meas],
                      'mu': [{'clique': list(cl), 'dom': [[a, sizes[a]] for a in cl], 'vals': [enc_q(int(v)) for v in mu[cl].values.flatten()]} for cl in eng.model.cliques],
                      'eigs': [enc_q(Fr(e).limit_denominator(10**9)) for e in eigs]})
@@ -230,7 +240,7 @@ def spec_loss_of(dom, meas, table):
         x = marg_of_table(dom, table, m['proj'])
         c = 1 / Fr(m['noise'])
         for row, yi in zip(m['Q'], m['y']):
-            d_ = c * (sum(Fr(int(q)) * xv for q, xv in zip(row, x)) - Fr(int(yi)))
+            d_ = c * (sum(Fr(int(q)) * xv for q, xv in zip(row, x)) - Fr(float(yi)))
             out += d_ * d_ / 2
     return out
 
@@ -302,7 +312,7 @@ def l1_stream(res, drv, r, tier):
             x = marg_of_table(dom, table, m['proj'])
             c = 1 / Fr(m['noise'])
             for row, yi in zip(m['Q'], m['y']):
-                spec += abs(c * (sum(Fr(int(q)) * xv for q, xv in zip(row, x)) - Fr(int(yi))))
+                spec += abs(c * (sum(Fr(int(q)) * xv for q, xv in zip(row, x)) - Fr(float(yi))))
         canon = {'dom': dom, 'metric': 'L1', 'meas': [{'Q': m['Q'].tolist(), 'y': m['y'].tolist(), 'noise': m['noise'], 'proj': m['proj']} for m in meas],
                  'table': [int(v) for v in table.values()]}
         res.case(canon, len(meas) >= 2)
@@ -314,7 +324,7 @@ def l1_stream(res, drv, r, tier):
             bad = f'L1: L(mu+h) = {lh} < L(mu) + <g,h> = {loss + gh}: the returned gradient is not a subgradient of the loss'
         rows.append((canon, bad, loss, grad, eng))
         reqs.append({'op': 'loss', 'l1': True, 'dom': dom, 'cliques': [list(c) for c in eng.model.cliques],
-                     'meas': [{'Q': [[enc_q(int(v)) for v in row] for row in m['Q']], 'y': [enc_q(int(v)) for v in m['y']],
+                     'meas': [{'Q': [[enc_q(int(v)) for v in row] for row in m['Q']], 'y': [enc_q(Fr(float(v))) for v in m['y']],
                                'noise': enc_q(Fr(m['noise']).limit_denominator(1000)), 'proj': m['proj']} for m in meas],
                      'mu': [{'clique': list(cl), 'dom': [[a, sizes[a]] for a in cl], 'vals': [enc_q(int(v)) for v in mu[cl].values.flatten()]} for cl in eng.model.cliques],
                      'eigs': [enc_q(1) for _ in meas]})
